@@ -25,6 +25,13 @@ pub enum Policy
     Pct(u64, usize),
     /// follow the given choice indices (into the sorted list of enabled tasks), then Serial
     Replay(Vec<usize>),
+    /// workers by priority: the enabled worker that comes first in the list runs (to completion or until it
+    /// blocks); workers not listed come after the listed ones in spawn order; main runs whenever it can (it spawns
+    /// all workers first and is blocked in join most of the time).
+    /// No worker is preempted inside its work step (a worker only ever runs because every worker before it in the
+    /// list is blocked or finished, and a worker in its work step unblocks nobody), so the work steps are atomic
+    /// and happen in an order determined by the list: the schedules Model/Sched.v describes.
+    Order(Vec<usize>),
 }
 
 #[derive(Clone, Debug, PartialEq)]
@@ -169,6 +176,19 @@ impl Inner
                 {
                     if self.priorities[enabled[i]] > self.priorities[enabled[best]] { best = i; }
                 }
+                best
+            },
+            Policy::Order(list) =>
+            {
+                let rank = |t : usize| -> (usize, usize)
+                {
+                    // main first: it spawns every worker before any of them runs, then blocks in join; what it does
+                    // between two joins (status lines, one history file) touches nothing a worker reads
+                    if t == 0 { return (0, 0); }
+                    match list.iter().position(|x| *x == t) { Some(i) => (1, i), None => (2, t) }
+                };
+                let mut best = 0;
+                for i in 0..enabled.len() { if rank(enabled[i]) < rank(enabled[best]) { best = i; } }
                 best
             },
             Policy::Replay(list) =>
